@@ -57,6 +57,14 @@ func checkC23(c *Ctx, r *Report) {
 			})
 			if rmAll && rmHealthy && rmTrend {
 				ok = true
+				// every iteration that takes the not-listed side performs all three
+				// removals before the next element: no path from the not-listed edge back
+				// to the loop header skips one (a set removal may be skipped only on the
+				// side where the set does not hold the host anyway)
+				if skipped := departurePathsSkipping(sync, l, fAll, fHealthy, fTrend); skipped != "" {
+					ok = false
+					why = "on some path through the not-listed side of the departure loop " + skipped
+				}
 			} else {
 				why = fmt.Sprintf("the departure loop over 'all' removes from all=%v healthy=%v trend=%v", rmAll, rmHealthy, rmTrend)
 			}
